@@ -30,7 +30,7 @@ SPEC = {'id': 'C13',
          'mutations / truncations / random bytes, and descriptions (type 0..6, SDP text of any content) through '
          'Serialize then Deserialize; a case is non-trivial when it is brace-delimited or does not end in an error '
          '(deserialise) / has a non-empty SDP (serialise); distinct = distinct (class, case line)'
-         " Proxy side: connection lines at the RFC 4566 position and in media sections, complete / multicast / truncated after every field; the case distribution records which inputs pion's parser accepts.",
+         " Proxy side: connection lines at the RFC 4566 position and in media sections, complete / multicast / truncated after every field; the case distribution records which inputs pion's parser accepts; descriptions with several media sections and hundreds of attributes / candidates; SDP text containing fragments that look like JSON escapes (backslash-u003c and the like). Client side: SDP-shaped answers (with and without connection lines, candidates of every address class) handed to the real Negotiate path under both keepLocalAddresses settings.",
  'level_text': 'Round trip (four types, every SDP text, also on raw bytes) and totality of DeserializeSessionDescription '
                'are kernel-checked theorems over a model that follows util.go statement by statement on top of an '
                'executable model of encoding/json (scanner grammar, unquoting, map binding, float64 overflow, Marshal '
@@ -39,7 +39,8 @@ SPEC = {'id': 'C13',
                'regenerated from the source and tied to the model; the real functions are run against the model and the '
                'oracle (never panics, round trip) on generated documents.',
  'level_note': 'proof-partial: the clause about extracting a peer address from SDP text (proxy/lib/webrtcconn.go '
-               'remoteIPFromSDP) is not covered by this check (IP/SDP work package). Trusted: Lean kernel; the '
+               'remoteIPFromSDP) and the client side (Negotiate applied to a hostile answer) have no Lean model: pion parses the text, so they are '
+               'decided by the oracle alone (never panics, the result is an address that occurs in the text) on the real functions in proxy/lib and client/lib. Trusted: Lean kernel; the '
                'hand-written model of Go 1.23.5 encoding/json, strconv.ParseFloat overflow and utf8.DecodeRune '
                '(validated differentially, not verified against their sources); pion SDPType.MarshalJSON read from '
                'v3.1.41; that these functions are the only ones applied to the remote string before pion is read, not '
